@@ -399,7 +399,26 @@ def run(ctx, big=False):
     res.extra.update({'op_histogram': stats['ops'], 'items_removed_lazily_after_expiry': stats['lazy_expired'],
                       'items_evicted_at_limit': stats['evicted'], 'largest_table': stats['max_rows'],
                       'short_sequences': stats['short_sequences']})
+    res.witnessed['iterkeys_nan_key_incomplete'] = witness_nan_keys()
     return res
+
+
+def witness_nan_keys():
+    """Finding C03-F1 (Coq: C03_iterkeys_null_key_refuted): c[nan] = 1; c[7] = 2; c[nan] = 3 holds three items (nan != nan, as in
+    a Python dictionary) but key-ordered iteration lists one of them in either direction."""
+    import shutil
+    import tempfile
+    d = tempfile.mkdtemp(prefix='c03wit-')
+    try:
+        c = diskcache.Cache(d)
+        c[float('nan')] = 1
+        c[7] = 2
+        c[float('nan')] = 3
+        fwd, bwd, n = list(c.iterkeys()), list(c.iterkeys(reverse=True)), len(c)
+        c.close()
+        return n == 3 and len(fwd) < 3 and len(bwd) < 3
+    finally:
+        shutil.rmtree(d, ignore_errors=True)
 
 
 def search(ctx, broken):
